@@ -198,6 +198,9 @@ class ExprMixin:
                 if k not in fr.nonempty:
                     fr.nonempty.add(k)
                     added.append(k)
+                before = set(fr.nonempty)
+                self.assume(v, True, fr)        # later operands are evaluated under this one (length bounds, non-emptiness)
+                added.extend(fr.nonempty - before)
             if is_and and t is False:
                 return v if not vals else (Sym('booland', *(vals + [v])) if vals else v)
             if not is_and and t is True:
@@ -433,6 +436,7 @@ class ExprMixin:
         if fr is not None and isinstance(idx, int) and not isinstance(idx, bool) and not is_const(base) and \
                 not isinstance(base, (tuple, DictV)) and not (isinstance(base, ListV) and base.complete) and \
                 not self.at_least_one(base) and show(base) not in fr.nonempty and \
+                not self.index_known(base, idx, fr) and \
                 not (isinstance(base, Sym) and base.op == 'attr' and base.args[1] == 'args'):
             self.risk(fr, 'index', ('builtins.IndexError',), base, node)
         if fr is not None and isinstance(idx, str) and isinstance(base, (Sym, FieldV)):
@@ -457,6 +461,16 @@ class ExprMixin:
             except IndexError:
                 return Sym('index', base, idx)
         return Sym('index', base, idx)
+
+    @staticmethod
+    def index_known(base, idx, fr):
+        """an enclosing ``len(x) > k`` established that index ``idx`` of x (or of a bytes / bytearray copy of x) exists"""
+        if idx < 0:
+            return False
+        b = base
+        while isinstance(b, Sym) and b.op in ('bytes', 'bytearray', 'list', 'tuple') and len(b.args) == 1:
+            b = b.args[0]
+        return ('#index %d of %s' % (idx, show(b))) in fr.nonempty or ('#index %d of %s' % (idx, show(base))) in fr.nonempty
 
     @staticmethod
     def at_least_one(v):
